@@ -1025,3 +1025,24 @@ def _clone_expr(n):
     if isinstance(n, list):
         return [_clone_expr(x) for x in n]
     return n
+
+
+def field_initial(db, fn, e):
+    """the expression a constructor stores in a field, for `e` = `v.attr` where fn binds v once to `C(...)` and C is a class of
+    fn's module whose methods assign self.attr exactly once (in __init__); None when that cannot be established"""
+    if not (isinstance(e, ast.Attribute) and isinstance(e.value, ast.Name)):
+        return None
+    defs = [s for s in walk_func(fn) if isinstance(s, ast.Assign) and len(s.targets) == 1 and isinstance(s.targets[0], ast.Name) and s.targets[0].id == e.value.id]
+    if len(defs) != 1 or not (isinstance(defs[0].value, ast.Call) and isinstance(defs[0].value.func, ast.Name)):
+        return None
+    mod = getattr(fn, "_qual", "").split(".")[0]
+    q = mod + "." + defs[0].value.func.id
+    if not db.has(q) or not isinstance(db.defs[q], ast.ClassDef):
+        return None
+    cd = db.defs[q]
+    stores = [s for m in cd.body if isinstance(m, ast.FunctionDef) for s in ast.walk(m)
+              if isinstance(s, ast.Assign) and any(isinstance(t, ast.Attribute) and isinstance(t.value, ast.Name) and t.value.id == "self" and t.attr == e.attr for t in s.targets)]
+    init = [m for m in cd.body if isinstance(m, ast.FunctionDef) and m.name == "__init__"]
+    if len(stores) != 1 or not init or stores[0] not in list(ast.walk(init[0])):
+        return None
+    return stores[0].value
